@@ -68,6 +68,11 @@ pub fn run(op: &str, case: &Value) -> Value {
             }
         }
         "ts" => ts(case, &mut m),
+        "foldsize" => foldsize(case, &mut m),
+        "err" => errtable(case, &mut m),
+        "builders" => builders(&mut m),
+        "vreqs" => vreqs(case, &mut m),
+        "leakfn" => leakfn(case, &mut m),
         "key" => key(case, &mut m),
         _ => unreachable!(),
     }
@@ -222,6 +227,243 @@ fn key(case: &Value, m: &mut Map<String, Value>) {
                     {"key": jbytes(&o3), "msg": jbytes(b"aws4_request"), "out": jbytes(&o4)},
                 ]),
             );
+        }
+    }
+}
+
+/// C08 size ladder: a form body of n+2 bytes folded into the query string (no authentication at all,
+/// so a request that survives folding is refused at rule 5).
+fn foldsize(case: &Value, m: &mut Map<String, Value>) {
+    let n = get_i64(case, "n") as usize;
+    let path = get_bytes(case, "path");
+    m.insert("n".into(), json!(n));
+    m.insert("path".into(), jbytes(&path));
+    let mut body = b"a=".to_vec();
+    body.resize(n + 2, b'b');
+    let built = crate::req::Built {
+        method: b"POST".to_vec(),
+        uri: path.clone(),
+        version: "HTTP/1.1".into(),
+        headers: vec![
+            (b"host".to_vec(), b"example.com".to_vec()),
+            (b"content-type".to_vec(), b"application/x-www-form-urlencoded".to_vec()),
+        ],
+        body,
+    };
+    let req = match built.request() {
+        Ok(r) => r,
+        Err(e) => return res_other(m, "inadm", &e),
+    };
+    let cfg = json!({"region": "us-east-1", "service": "service", "now": [735840, 45360, 0], "s3": false, "fold": true});
+    let ev = crate::req::run_plain(req, &cfg);
+    for k in ["res", "kind", "code", "status", "msg"] {
+        m.insert(k.into(), ev.get(k).cloned().unwrap_or(json!("")));
+    }
+    m.insert("out".into(), json!([]));
+}
+
+/// C13/C08: every error variant through the public error API.
+fn errtable(case: &Value, m: &mut Map<String, Value>) {
+    use scratchstack_aws_signature::SignatureError;
+    use std::error::Error;
+    let kind = get_str(case, "kind").to_string();
+    let via = get_str(case, "via").to_string();
+    m.insert("kind_in".into(), json!(kind));
+    m.insert("via".into(), json!(via));
+    let r = guarded(|| {
+        let e: SignatureError = match via.as_str() {
+            "box" => {
+                let b: Box<dyn Error + Send + Sync> = Box::new(crate::req::sig_error(&kind, "boxed"));
+                SignatureError::from(b)
+            }
+            "foreign" => {
+                let b: Box<dyn Error + Send + Sync> = Box::new(std::fmt::Error);
+                SignatureError::from(b)
+            }
+            "io" => SignatureError::from(std::io::Error::new(std::io::ErrorKind::Other, "io")),
+            _ => crate::req::sig_error(&kind, "direct"),
+        };
+        let disp = e.to_string();
+        let dbg = format!("{:?}", e);
+        let has_source = e.source().is_some();
+        (e, disp, dbg, has_source)
+    });
+    match r {
+        Err(p) => res_other(m, "panic", &p),
+        Ok((e, disp, dbg, has_source)) => {
+            res_err(m, &e);
+            m.insert("display_len".into(), json!(disp.len()));
+            m.insert("debug_len".into(), json!(dbg.len()));
+            m.insert("has_source".into(), json!(has_source));
+        }
+    }
+}
+
+/// C08: builders with required fields missing return errors, never panic.
+fn builders(m: &mut Map<String, Value>) {
+    use scratchstack_aws_signature::{
+        auth::{SigV4Authenticator, SigV4AuthenticatorResponse},
+        GetSigningKeyRequest, GetSigningKeyResponse,
+    };
+    let mut outs: Vec<Value> = Vec::new();
+    let mut rec = |name: &str, r: Result<bool, String>| {
+        outs.push(match r {
+            Ok(ok) => json!({"name": name, "res": if ok { "ok" } else { "err" }}),
+            Err(p) => json!({"name": name, "res": "panic", "msg": p}),
+        })
+    };
+    rec("GetSigningKeyRequest::empty", guarded(|| GetSigningKeyRequest::builder().build().is_ok()));
+    rec("GetSigningKeyRequest::no_date", guarded(|| GetSigningKeyRequest::builder().access_key("a").region("r").service("s").build().is_ok()));
+    rec("GetSigningKeyRequest::no_region", guarded(|| {
+        GetSigningKeyRequest::builder().access_key("a").service("s").request_date(chrono::NaiveDate::from_ymd_opt(2015, 8, 30).unwrap()).build().is_ok()
+    }));
+    rec("GetSigningKeyRequest::full", guarded(|| {
+        GetSigningKeyRequest::builder().access_key("a").region("r").service("s").request_date(chrono::NaiveDate::from_ymd_opt(2015, 8, 30).unwrap()).build().is_ok()
+    }));
+    rec("GetSigningKeyResponse::empty", guarded(|| GetSigningKeyResponse::builder().build().is_ok()));
+    rec("GetSigningKeyResponse::default", guarded(|| {
+        let d = GetSigningKeyResponse::default();
+        format!("{:?}", d).len() > 0
+    }));
+    rec("SigV4AuthenticatorResponse::empty", guarded(|| SigV4AuthenticatorResponse::builder().build().is_ok()));
+    rec("SigV4Authenticator::empty", guarded(|| SigV4Authenticator::builder().build().is_ok()));
+    rec("SigV4Authenticator::partial", guarded(|| {
+        let mut b = SigV4Authenticator::builder();
+        b.credential("x".to_string());
+        b.build().is_ok()
+    }));
+    rec("SigV4Authenticator::getters", guarded(|| {
+        let b = SigV4Authenticator::builder();
+        b.get_credential().is_none() && b.get_signature().is_none() && b.get_session_token().is_none()
+    }));
+    rec("SignatureOptions", guarded(|| {
+        let a = scratchstack_aws_signature::SignatureOptions::url_encode_form();
+        let b = scratchstack_aws_signature::SignatureOptions::S3;
+        let c = scratchstack_aws_signature::SignatureOptions::default();
+        a.url_encode_form && !a.s3 && b.s3 && !b.url_encode_form && !c.s3 && !c.url_encode_form && format!("{:?}", a).len() > 0
+    }));
+    m.insert("outs".into(), Value::Array(outs));
+    res_ok(m, &[]);
+}
+
+/// C05: the dynamic requirements container driven through an operation sequence.
+fn vreqs(case: &Value, m: &mut Map<String, Value>) {
+    use scratchstack_aws_signature::{SignedHeaderRequirements, VecSignedHeaderRequirements};
+    let ops: Vec<(String, String, String)> = case
+        .get("ops")
+        .and_then(|v| v.as_array())
+        .map(|a| {
+            a.iter()
+                .map(|o| (get_str(o, "op").to_string(), get_str(o, "list").to_string(), String::from_utf8_lossy(&get_bytes(o, "name")).to_string()))
+                .collect()
+        })
+        .unwrap_or_default();
+    let init = |k: &str| -> Vec<String> {
+        case.get(k).and_then(|v| v.as_array()).map(|a| a.iter().map(|x| String::from_utf8_lossy(&bytes_of(x)).to_string()).collect()).unwrap_or_default()
+    };
+    let (ia, ii, ip) = (init("always"), init("ifin"), init("prefix"));
+    let r = guarded(|| {
+        let ar: Vec<&str> = ia.iter().map(|s| s.as_str()).collect();
+        let ir: Vec<&str> = ii.iter().map(|s| s.as_str()).collect();
+        let pr: Vec<&str> = ip.iter().map(|s| s.as_str()).collect();
+        let mut v = VecSignedHeaderRequirements::new(&ar, &ir, &pr);
+        for (op, list, name) in &ops {
+            match (op.as_str(), list.as_str()) {
+                ("add", "always") => v.add_always_present(name),
+                ("add", "ifin") => v.add_if_in_request(name),
+                ("add", "prefix") => v.add_prefix(name),
+                ("remove", "always") => v.remove_always_present(name),
+                ("remove", "ifin") => v.remove_if_in_request(name),
+                ("remove", "prefix") => v.remove_prefix(name),
+                _ => {}
+            }
+        }
+        let l = |xs: &[std::borrow::Cow<'_, str>]| Value::Array(xs.iter().map(|s| jbytes(s.as_bytes())).collect());
+        (l(v.always_present()), l(v.if_in_request()), l(v.prefixes()))
+    });
+    match r {
+        Err(p) => res_other(m, "panic", &p),
+        Ok((a, i, p)) => {
+            res_ok(m, &[]);
+            m.insert("got_always".into(), a);
+            m.insert("got_ifin".into(), i);
+            m.insert("got_prefix".into(), p);
+        }
+    }
+}
+
+/// C17: Debug / Display of every public value that holds or is derived from key material.
+fn leakfn(case: &Value, m: &mut Map<String, Value>) {
+    use scratchstack_aws_signature::{GetSigningKeyRequest, GetSigningKeyResponse, KSecretKey, KeyTooLongError};
+    use std::str::FromStr;
+    let secret = get_bytes(case, "secret");
+    m.insert("secret".into(), jbytes(&secret));
+    m.insert("renders".into(), json!([]));
+    let ss = match std::str::from_utf8(&secret) {
+        Ok(s) => s.to_string(),
+        Err(_) => return res_other(m, "inadm", "not utf-8"),
+    };
+    let date = chrono::NaiveDate::from_ymd_opt(2015, 8, 30).unwrap();
+    let r = guarded(|| {
+        let mut out: Vec<(String, String)> = Vec::new();
+        let k = match KSecretKey::from_str(&ss) {
+            Ok(k) => k,
+            Err(e) => {
+                out.push(("KeyTooLongError.debug".into(), format!("{:?}", e)));
+                out.push(("KeyTooLongError.display".into(), format!("{}", e)));
+                return (out, Vec::new());
+            }
+        };
+        let kd = k.to_kdate(date);
+        let kr = kd.to_kregion("us-east-1");
+        let kv = kr.to_kservice("service");
+        let kg = kv.to_ksigning();
+        out.push(("KSecretKey.debug".into(), format!("{:?}", k)));
+        out.push(("KSecretKey.display".into(), format!("{}", k)));
+        out.push(("KSecretKey.debug#".into(), format!("{:#?}", k)));
+        out.push(("KDateKey.debug".into(), format!("{:?}", kd)));
+        out.push(("KDateKey.display".into(), format!("{}", kd)));
+        out.push(("KRegionKey.debug".into(), format!("{:?}", kr)));
+        out.push(("KRegionKey.display".into(), format!("{}", kr)));
+        out.push(("KServiceKey.debug".into(), format!("{:?}", kv)));
+        out.push(("KServiceKey.display".into(), format!("{}", kv)));
+        out.push(("KSigningKey.debug".into(), format!("{:?}", kg)));
+        out.push(("KSigningKey.display".into(), format!("{}", kg)));
+        let resp = GetSigningKeyResponse::builder().signing_key(kg).build();
+        out.push(("GetSigningKeyResponse.debug".into(), format!("{:?}", resp)));
+        out.push(("GetSigningKeyResponse.debug#".into(), format!("{:#?}", resp)));
+        if let Ok(r) = resp {
+            out.push(("GetSigningKeyResponse.signing_key.debug".into(), format!("{:?}", r.signing_key())));
+            let ar: scratchstack_aws_signature::auth::SigV4AuthenticatorResponse = r.into();
+            out.push(("SigV4AuthenticatorResponse.debug".into(), format!("{:?}", ar)));
+        }
+        let req = GetSigningKeyRequest::builder().access_key("AKIDEXAMPLE").region("us-east-1").service("service").request_date(date).build();
+        out.push(("GetSigningKeyRequest.debug".into(), format!("{:?}", req)));
+        out.push(("KeyTooLongError.display".into(), format!("{}", KeyTooLongError)));
+        let keys = vec![
+            ("kDate", kd.as_ref().to_vec()),
+            ("kRegion", kr.as_ref().to_vec()),
+            ("kService", kv.as_ref().to_vec()),
+            ("kSigning", kg.as_ref().to_vec()),
+        ];
+        (out, keys)
+    });
+    match r {
+        Err(p) => res_other(m, "panic", &p),
+        Ok((renders, keys)) => {
+            let mut needles = vec![crate::leak::needle("secret", &secret, false)];
+            let mut pref = b"AWS4".to_vec();
+            pref.extend_from_slice(&secret);
+            needles.push(crate::leak::needle("secret", &pref, false));
+            for (n, k) in &keys {
+                needles.push(crate::leak::needle(n, k, false));
+            }
+            let evs: Vec<Value> = renders
+                .iter()
+                .map(|(w, t)| json!({"what": w, "taints": crate::leak::taints(t.as_bytes(), &needles)}))
+                .collect();
+            res_ok(m, &[]);
+            m.insert("renders".into(), Value::Array(evs));
         }
     }
 }
